@@ -331,7 +331,10 @@ def judge(w, mod: Any, item: Dict[str, Any], twin: exprs.Twin, kwargs: Dict[str,
         return
     if type(exc) is not want_type:
         key = "C07/violation-replaced-by-other-exception"
-        if isinstance(exc, RuntimeError) and "Failed to recompute" in str(exc):
+        root = exc.__cause__ if isinstance(exc, RuntimeError) and exc.__cause__ is not None else exc
+        if isinstance(root, TypeError) and "__bool__ should return bool" in str(root) and "all(" in item["expr"]:
+            key = "C07/all-quantifier-truth-test-returns-non-bool"
+        elif isinstance(exc, RuntimeError) and "Failed to recompute" in str(exc):
             key = classify_recompute_failure(item["expr"], exc)
         elif isinstance(exc, (SyntaxError, ValueError, AssertionError)) and form in ("default", "class"):
             key = "C07/decorator-source-not-recovered/" + item["layout"]
@@ -399,6 +402,12 @@ def classify_recompute_failure(expr: str, exc: BaseException) -> str:
     has_starred = any(isinstance(n, ast.Starred) for n in ast.walk(tree))
     if has_starred and isinstance(cause, NotImplementedError):
         return "C07/starred-call-argument-unhandled"
+    # a guarded operand inside the element / filter of a comprehension
+    for comp in ast.walk(tree):
+        if isinstance(comp, (ast.GeneratorExp, ast.ListComp, ast.SetComp, ast.DictComp)):
+            inner = [n for n in ast.walk(comp) if isinstance(n, ast.BoolOp) or (isinstance(n, ast.Compare) and len(n.ops) > 1)]
+            if inner and isinstance(cause, (IndexError, KeyError, ZeroDivisionError, TypeError, AttributeError, ValueError)):
+                return "C07/speculative-evaluation-after-placeholder-operand"
     has_guard = any(isinstance(n, ast.BoolOp) or (isinstance(n, ast.Compare) and len(n.ops) > 1) for n in ast.walk(tree))
     if has_guard and isinstance(cause, (IndexError, KeyError, ZeroDivisionError, TypeError, AttributeError, ValueError)):
         return "C07/eager-boolop-and-compare-chain"
@@ -554,6 +563,70 @@ def run_invariant_layouts(w) -> None:
         loaded.unload()
 
 
+def run_generic(w, batch_no: int, n_items: int) -> None:
+    """The full C06 grammar (depth 4, closures, shadowed builtins, None): every falsifying input must give ViolationError."""
+    import icontract  # pylint: disable=import-outside-toplevel
+
+    rng = w.rng
+    items = []
+    for i in range(n_items):
+        shadow = rng.choice(exprs.SHADOW_SETS) if rng.random() < 0.3 else {}
+        env = exprs.Env(rng, shadow, with_none=rng.random() < 0.3)
+        g = exprs.Gen(rng, env, max_depth=rng.choice((3, 4)), guarded_bias=0.3)
+        try:
+            expr = g.condition()
+            ast.parse(expr, mode="eval")
+        except (SyntaxError, RecursionError):
+            continue
+        params = env.params()
+        lam = c06.used_params(expr, params)
+        items.append({"k": "g{}_{}".format(batch_no, i), "expr": expr, "params": params, "lam_params": lam, "role": "pre", "c1": env.closure["c1"],
+                      "env": env, "shadow": shadow})
+    loaded = prog.load_source(c06.render_batch(items), w.scratch())
+    mod = loaded.module
+    try:
+        for it in items:
+            try:
+                twin = exprs.Twin(it["expr"], it["lam_params"], ["c1"])
+            except Exception:  # pylint: disable=broad-except
+                continue
+            for _ in range(3):
+                found = None
+                for _try in range(40):
+                    vals = c06.materialise(mod, it["env"].values(rng))
+                    tw = {n: vals[n] for n in it["lam_params"]}
+                    tw["c1"] = it["c1"]
+                    raised, value = twin.evaluate(vars(mod), tw)
+                    if raised:
+                        continue
+                    try:
+                        if not value:
+                            found = vals
+                            break
+                    except Exception:  # pylint: disable=broad-except
+                        continue
+                if found is None:
+                    break
+                exc = None
+                try:
+                    getattr(mod, "F_" + it["k"])(**found)
+                except BaseException as err:  # pylint: disable=broad-except
+                    exc = err
+                w.count("violating_calls")
+                w.count("generic_grammar_calls")
+                w.case((it["expr"], "generic", repr(sorted((k, repr(v)) for k, v in found.items()))))
+                if type(exc) is not icontract.ViolationError:
+                    key = "C07/violation-replaced-by-other-exception"
+                    if isinstance(exc, RuntimeError) and "Failed to recompute" in str(exc):
+                        key = classify_recompute_failure(it["expr"], exc)
+                    w.violation(key, "condition {!r} with {}: expected ViolationError, got {}: {} (cause {!r})".format(
+                        it["expr"], {k: repr(v) for k, v in found.items()}, type(exc).__name__, str(exc)[:200], getattr(exc, "__cause__", None)),
+                        {"generic_expr": it["expr"], "values": {k: repr(v) for k, v in found.items()}, "params": it["params"], "c1": it["c1"],
+                         "shadow": it["shadow"]})
+    finally:
+        loaded.unload()
+
+
 def run(w) -> None:
     install_hook()
     all_layouts = layouts()
@@ -562,6 +635,7 @@ def run(w) -> None:
         if b % w.nshards != w.shard:
             continue
         run_batch(w, b, 40, all_layouts)
+        run_generic(w, b, 40)
     if w.shard == 0:
         run_invariant_layouts(w)
     w.exhaustive = False
@@ -571,6 +645,25 @@ def replay(case, w) -> None:
     install_hook()
     if "invariant" in case:
         run_invariant_layouts(w)
+        return
+    if "generic_expr" in case:
+        import icontract  # pylint: disable=import-outside-toplevel
+        env = exprs.Env(w.rng, case.get("shadow", {}))
+        lam = c06.used_params(case["generic_expr"], case["params"])
+        it = {"k": "g_r", "expr": case["generic_expr"], "params": case["params"], "lam_params": lam, "role": "pre", "c1": case.get("c1", 0)}
+        loaded = prog.load_source(c06.render_batch([it]), w.scratch())
+        try:
+            ns = dict(vars(loaded.module))
+            vals = {k: eval(v, ns) for k, v in case["values"].items()}  # pylint: disable=eval-used
+            try:
+                loaded.module.F_g_r(**vals)
+                exc = None
+            except BaseException as err:  # pylint: disable=broad-except
+                exc = err
+            if type(exc) is not icontract.ViolationError:
+                w.violation("C07/violation-replaced-by-other-exception", "expected ViolationError, got {!r}".format(exc), case)
+        finally:
+            loaded.unload()
         return
     src = PRELUDE + exprs.SUPPORT + "\n"
     start = src.count("\n") + 1
